@@ -1,6 +1,7 @@
 package main
 
 import (
+	"sort"
 	"go/ast"
 	"go/token"
 	"go/types"
@@ -470,4 +471,21 @@ func (g *Graph) MustPassIncl(from int, to []int, via func(int) bool) (bool, []in
 		}
 	}
 	return g.MustPass(from, to, via)
+}
+
+// guardingConds returns the condition vertices one of whose outcome edges dominates v (every path from entry to v took
+// that edge), outermost first.
+func (g *Graph) guardingConds(v int) []int {
+	var out []int
+	for _, ev := range g.condVertices() {
+		for k := 0; k < 2; k++ {
+			seen, _ := g.reach([]int{g.Entry}, nil, func(u, kk int) bool { return u == ev && kk == k })
+			if v != g.Entry && !seen[v] {
+				out = append(out, ev-1)
+				break
+			}
+		}
+	}
+	sort.Slice(out, func(i, j int) bool { return g.Dominates(out[i], out[j]) && out[i] != out[j] })
+	return out
 }
